@@ -45,7 +45,9 @@ Expected == IF Fmt = "vcfinfo" THEN ParseVcfTyped(Text, InfoDecl) ELSE Parse(Bas
 \* the line ends, the final newline and the header are
 EntriesAreRecords == phase = "file" => /\ Len(Expected) = Len(picks)
                                        /\ \A k \in DOMAIN picks : Expected[k] = RecordMeaning(picks[k])
-Emit == phase = "file" => PrintT(ToJson([fmt |-> Fmt, text |-> Text, expected |-> Expected, picks |-> picks,
+\* what the same data lines mean in a file whose header declares the same INFO keys with other types
+ExpectedAlt == IF Fmt = "vcfinfo" THEN ParseVcfTyped(Text, AltInfoDecl) ELSE <<>>
+Emit == phase = "file" => PrintT(ToJson([fmt |-> Fmt, text |-> Text, expected |-> Expected, expectedAlt |-> ExpectedAlt, picks |-> picks,
                                          crlf |-> crlf, finalnl |-> finalnl, header |-> withHeader, width |-> width,
                                          ncomments |-> IF IsSeqFmt THEN 0 ELSE Len(lines) - Len(picks)]))
 ==============================================================================
